@@ -468,7 +468,19 @@ func (d *Decoder) Decode(s *Schema) (any, error) {
 
 // DecodeAll decodes exactly n datums from b and demands that no byte is left.
 func DecodeAll(s *Schema, b []byte, n int) ([]any, error) {
+	out, _, err := DecodeAllLF(s, b, n)
+	return out, err
+}
+
+// DecodeAllLF is DecodeAll that also reports how many varints were not in shortest form.
+func DecodeAllLF(s *Schema, b []byte, n int) (res []any, longForms int, err error) {
 	d := &Decoder{B: b}
+	res, err = decodeAll(d, s, n)
+	return res, d.LongForms, err
+}
+
+func decodeAll(d *Decoder, s *Schema, n int) ([]any, error) {
+	b := d.B
 	out := make([]any, 0, n)
 	for i := 0; i < n; i++ {
 		v, err := d.Decode(s)
